@@ -2,6 +2,8 @@
 From Bita Require Import Model.Base Model.ChunkIndex Model.CloneOutput Model.CloneSpec.
 From Bita Require Import Model.Archive Model.CloneArchive.
 From Bita Require Import Proofs.Planner Proofs.CloneCorrect Proofs.CloneFinal Proofs.TamperSafe.
+From Bita Require Import Model.Chunker Model.Proto Model.Compress Model.CloneBytes.
+From Bita Require Import Proofs.ProtoRoundTrip Proofs.RoundTrip Proofs.CloneBytesCorrect Proofs.CloneBytesMore.
 
 (* the chunks requested from the archive are exactly the descriptors, in archive order, whose key was
    found neither by the scan of the prior output (when it is used as seed) nor in any seed; with
@@ -26,5 +28,25 @@ Theorem C06_archive_fetch_exact :
     cr_fetch r = map (dkey a) (filter (fun d => negb (found oidx seeds (dkey a d))) (a_descs a)).
 Proof. exact archive_fetch_exact. Qed.
 
+(* Over raw BYTES (Model/CloneBytes.v): for every archive of the model writer, every old output (scanned when used
+   in place) and all seeds, the descriptors fetched from the archive are exactly those, in archive order and each
+   once, whose checksum is not the truncated hash of any chunk the chunker finds in the scanned files. *)
+Theorem C06_fetch_exact_bytes :
+  forall (H comp : list N -> list N) (decomp : N -> list N -> option (list N)),
+    (forall x, lenN (H x) = 64) -> (forall x, Forall (fun b => b < 256) (H x)) ->
+    forall src o bytes prior inplace seeds,
+      opts_ok o -> bytes_ok src -> lenN src < 18446744073709551616 -> lenN bytes < 18446744073709551616 ->
+      codec_ok comp decomp o -> few_chunks o src -> no_collision H o src prior inplace seeds ->
+      compress_model H comp src o = Ok bytes ->
+      exists a r, try_init H (file_read_at bytes) = Ok a
+        /\ clone_bytes H decomp a (file_payload bytes) prior inplace seeds = Ok r
+        /\ cr_fetch r = map (dkey a)
+             (filter (fun d => negb (existsb (fun c => list_eqb (takeN (o_hashlen o) (H c)) (ad_checksum d))
+                                             (scanned_cfg (cfg_read (o_cfg o)) prior inplace seeds)))
+                     (a_descs a))
+        /\ NoDup (cr_fetch r).
+Proof. exact compress_clone_bytes_fetch. Qed.
+
 Print Assumptions C06_archive_fetch_exact.
 Print Assumptions C06_fetch_exact.
+Print Assumptions C06_fetch_exact_bytes.
